@@ -3,7 +3,9 @@ import itertools
 from .common import *
 
 NAMES = [b"content-length", b"Content-Length", b"transfer-encoding", b"Transfer-Encoding", b"TRANSFER-ENCODING",
-         b"connection", b"Connection", b"x-foo", b"X-Foo", b"host"]
+         b"connection", b"Connection", b"x-foo", b"X-Foo", b"host",
+         # names that differ in ONE bit that is not a letter-case bit ('^' 0x5e / '~' 0x7e, '@' / '`', '[' / '{', '_' / DEL)
+         b"x-sig^1", b"x-sig~1", b"X-SIG~1", b"a@b", b"a`b", b"k[0]", b"k{0}", b"x_y", b"x\x7fy"]
 SMALL_NAMES = [b"Content-Length", b"transfer-encoding", b"Connection", b"x-foo", b"content-length", b"CONNECTION"]
 VALUES = [b"chunked", b" CHUNKED\t", b"gzip, chunked", b"chunked , gzip", b"close", b"keep-alive,\tClose ", b"5", b" 42 ",
           b"", b"gzip", b"x", b"closed", b"chunked,", b",close", b"5, 5", b"007"]
@@ -48,7 +50,7 @@ def in_quantifier(ops):
     return True
 
 
-GETS = [b"content-length", b"TRANSFER-encoding", b"connection", b"X-FOO", b"host", b"nope"]
+GETS = [b"content-length", b"TRANSFER-encoding", b"connection", b"X-FOO", b"host", b"nope", b"X-Sig^1", b"x-sig~1", b"A`B", b"K[0]", b"X_Y"]
 
 
 def cases(seed, tier):
@@ -66,4 +68,4 @@ def cases(seed, tier):
         k = r.choice([1, 2, 3, 4, 5, 8, 13, 30])
         pool = big if r.random() < 0.8 else big + bad
         ops = [r.choice(pool) for _ in range(k)]
-        yield ops, r.sample(GETS, 3), r.random() < 0.2
+        yield ops, r.sample(GETS, 4), r.random() < 0.2
